@@ -98,13 +98,26 @@ type c09Stored struct {
 }
 
 type c09Behaviour struct {
-	Mode   string          `json:"mode"` // export | inbound
-	Local  c09Local        `json:"local"`
-	Peer   c09Peer         `json:"peer"` // export: the target; inbound: the peer the routes come from
-	Peer2  *c09Peer        `json:"peer2"` // export: target of the second export of the SAME stored path (absent: peer again)
-	Route  json.RawMessage `json:"route"`
+	Mode  string          `json:"mode"` // export | inbound
+	Local c09Local        `json:"local"`
+	Peer  c09Peer         `json:"peer"`  // export: the target; inbound: the peer the routes come from
+	Peer2 *c09Peer        `json:"peer2"` // export: target of the second export of the SAME stored path (absent: peer again)
+	Route json.RawMessage `json:"route"`
+	// export: the previous best route(s) of the prefix (0 or 1), handed to the export code as `old`
+	Olds []json.RawMessage `json:"olds"`
+	// export: what is handed to the export code is the WITHDRAWAL of the stored route (the best path
+	// went away: Update.GetChanges returns old.Clone(true) with old = the route itself)
+	Wd bool `json:"wd"`
+	// export: several (route, olds, wd) cases for the same target in one trace (bundles)
+	Cases  []c09Case       `json:"cases"`
 	Steps  []c09Step       `json:"steps"`
 	RawLoc json.RawMessage `json:"-"`
+}
+
+type c09Case struct {
+	Route json.RawMessage   `json:"route"`
+	Olds  []json.RawMessage `json:"olds"`
+	Wd    bool              `json:"wd"`
 }
 
 type c09Step struct {
@@ -606,44 +619,80 @@ func TestVerifC09(t *testing.T) {
 		switch b.Mode {
 		case "export":
 			w := world(b.Local, false)
-			var r c09Route
-			if err := json.Unmarshal(b.Route, &r); err != nil {
-				t.Fatalf("bad route: %v", err)
+			cases := b.Cases
+			if len(cases) == 0 {
+				cases = []c09Case{{Route: b.Route, Olds: b.Olds, Wd: b.Wd}}
 			}
-			target := w.c09AddPeer(t, b.Peer, true)
-			var src *table.PeerInfo // nil = locally originated (table.NewPath substitutes the local source)
-			if r.Src.Kind != "local" {
-				src = w.c09AddPeer(t, r.Src, true).peerInfo.Load()
-			}
-			built := c09Build(r, 1)
-			stored := table.NewPath(built.family, src, bgp.PathNLRI{NLRI: built.nlri}, false, built.attrs, now, false)
-			// The same stored path is exported twice, as the server does for every further peer and
-			// on every re-export: first to `peer`, then to `peer2` (or to `peer` again).
-			targets := []*peer{target, target}
-			if b.Peer2 != nil {
-				targets[1] = w.c09AddPeer(t, *b.Peer2, true)
-			}
-			for k, tg := range targets {
-				before := c09StoredView(stored, built)
-				// the server's fan-out step for one target peer
-				outs := w.s.processOutgoingPaths(tg, []*table.Path{stored}, nil)
-				obs := map[string]any{"before": before}
-				switch {
-				case len(outs) == 0:
-					obs["adv"] = "no"
-					obs["out"] = c09Project(nil)
-				case len(outs) == 1 && outs[0].IsWithdraw:
-					obs["adv"] = "withdraw"
-					obs["out"] = c09Project(nil)
-				case len(outs) == 1:
-					obs["adv"] = "yes"
-					obs["out"] = c09Project(outs[0].GetPathAttrs())
-				default:
-					obs["adv"] = fmt.Sprintf("other:%d", len(outs))
-					obs["out"] = c09Project(nil)
+			for _, cs := range cases {
+				var r c09Route
+				if err := json.Unmarshal(cs.Route, &r); err != nil {
+					t.Fatalf("bad route: %v", err)
 				}
-				obs["after"] = c09StoredView(stored, built)
-				tr.Emit(map[string]any{"ev": "Export", "to": k + 1, "route": b.Route, "obs": obs})
+				target := w.c09AddPeer(t, b.Peer, true)
+				var src *table.PeerInfo // nil = locally originated (table.NewPath substitutes the local source)
+				if r.Src.Kind != "local" {
+					src = w.c09AddPeer(t, r.Src, true).peerInfo.Load()
+				}
+				built := c09Build(r, 1)
+				stored := table.NewPath(built.family, src, bgp.PathNLRI{NLRI: built.nlri}, false, built.attrs, now, false)
+				// the previous best of the same prefix, if the case has one (implicit replacement)
+				var olds []*table.Path
+				var oldBuilt []c09Built
+				rawOlds := []json.RawMessage{}
+				for _, ro := range cs.Olds {
+					var o c09Route
+					if err := json.Unmarshal(ro, &o); err != nil {
+						t.Fatalf("bad old route: %v", err)
+					}
+					var osrc *table.PeerInfo
+					if o.Src.Kind != "local" {
+						osrc = w.c09AddPeer(t, o.Src, true).peerInfo.Load()
+					}
+					ob := c09Build(o, 1)
+					olds = append(olds, table.NewPath(ob.family, osrc, bgp.PathNLRI{NLRI: ob.nlri}, false, ob.attrs, now.Add(-time.Minute), false))
+					oldBuilt = append(oldBuilt, ob)
+					rawOlds = append(rawOlds, ro)
+				}
+				oldViews := func() []c09Stored {
+					v := []c09Stored{}
+					for i, o := range olds {
+						v = append(v, c09StoredView(o, oldBuilt[i]))
+					}
+					return v
+				}
+				// The same stored path is exported twice, as the server does for every further peer and
+				// on every re-export: first to `peer`, then to `peer2` (or to `peer` again).
+				targets := []*peer{target, target}
+				if b.Peer2 != nil {
+					targets[1] = w.c09AddPeer(t, *b.Peer2, true)
+				}
+				for k, tg := range targets {
+					before := c09StoredView(stored, built)
+					oldBefore := oldViews()
+					// the server's fan-out step for one target peer
+					in := stored
+					if cs.Wd {
+						in = stored.Clone(true)
+					}
+					outs := w.s.processOutgoingPaths(tg, []*table.Path{in}, olds)
+					obs := map[string]any{"before": before, "oldbefore": oldBefore, "oldafter": oldViews()}
+					switch {
+					case len(outs) == 0:
+						obs["adv"] = "no"
+						obs["out"] = c09Project(nil)
+					case len(outs) == 1 && outs[0].IsWithdraw:
+						obs["adv"] = "withdraw"
+						obs["out"] = c09Project(nil)
+					case len(outs) == 1:
+						obs["adv"] = "yes"
+						obs["out"] = c09Project(outs[0].GetPathAttrs())
+					default:
+						obs["adv"] = fmt.Sprintf("other:%d", len(outs))
+						obs["out"] = c09Project(nil)
+					}
+					obs["after"] = c09StoredView(stored, built)
+					tr.Emit(map[string]any{"ev": "Export", "to": k + 1, "wd": cs.Wd, "route": cs.Route, "olds": rawOlds, "obs": obs})
+				}
 			}
 		case "inbound":
 			// a fresh speaker per history: the Loc-RIB is part of the observation
